@@ -39,7 +39,7 @@ func (e *env) accountingSweep() {
 	var sum int64
 	for k, v := range e.w.Dump(e.nnsID) {
 		if len(k) > 0 && k[0] == 0x01 {
-			sum += world.Int64(stackitem.NewByteArray(v))
+			sum += world.LEInt(v).Int64()
 		}
 	}
 	if sum != m.supply {
